@@ -35,11 +35,11 @@ def content(ctx, n, cls):
 
 
 def key_of(ctx, i):
-    return [bytes([0x12, 0x34] * 8), bytes(16), ctx.sym("c08-key")][i]
+    return ([bytes([0x12, 0x34] * 8), bytes(16), ctx.sym("c08-key")] + [ctx.sym("c08-key-%d" % j) for j in range(5)])[i]
 
 
 def code_of(ctx, i):
-    return [bytes(8), bytes([0x45] * 8), ctx.sym("c08-code", 8)][i]
+    return ([bytes(8), bytes([0x45] * 8), ctx.sym("c08-code", 8)] + [ctx.sym("c08-code-%d" % j, 8) for j in range(5)])[i]
 
 
 def crc_payloads(L):
@@ -63,22 +63,24 @@ _CRC_CACHE = {}
 
 
 def cases(ctx):
+    nkeys = 3 if ctx.quick else 8
     for n in range(254):
         for cls in CCLASS:
             if n == 0 and cls != "seed":
                 continue
-            for k in range(3):
+            for k in range(nkeys):
                 yield ("len", n, cls, k, "cust")
                 yield ("len", n, cls, k, "code")
     for v in range(256):
         yield ("crc", 1, "all", v)
-    for L in (2, 14, 26):
+    for L in ((2, 14, 26) if ctx.quick else (2, 3, 14, 26, 50, 100, 253)):
         for v in range(256):
             yield ("crc", L, "lo", v)
             yield ("crc", L, "hi", v)
         yield ("crc", L, "zero", 0)
-    for ln in list(range(10, 49)) + [64, 100, 200, 253]:
-        poss = range(0, ln - 9) if ln <= 48 else sorted({0, 1, 5, 6, 7, ln - 26, ln - 11, ln - 10})
+    full_upto = 48 if ctx.quick else 130
+    for ln in list(range(10, full_upto + 1)) + [200, 253]:
+        poss = range(0, ln - 9) if ln <= full_upto else sorted({0, 1, 5, 6, 7, ln - 26, ln - 11, ln - 10})
         for pos in poss:
             yield ("ck", ln, pos)
     for ln in (0, 1, 11, 26, 27, 28, 100):
